@@ -486,4 +486,98 @@ example :
     hget (plainTrailers sn0 [] ops) "X-T".toList = some ["late".toList] := by decide
 
 
+/-! ### option handling (`defaultConfig`, the `With…` options, `New`'s fold) -/
+
+theorem lemma_fold_brotli (opts : List Opt) (c : Config) (h : 0 ≤ c.brotliLevel ∧ c.brotliLevel ≤ 11) :
+    0 ≤ (opts.foldl applyOpt c).brotliLevel ∧ (opts.foldl applyOpt c).brotliLevel ≤ 11 := by
+  induction opts generalizing c with
+  | nil => exact h
+  | cons o os ih =>
+    apply ih
+    cases o <;> simp only [applyOpt] <;> first | exact h | omega
+
+/-- whatever options are given, in whatever order, the brotli encoder pool is asked for a level the encoder
+    accepts (`WithBrotliLevel` clamps, the default is 4) -/
+theorem options_brotli_level_valid (opts : List Opt) :
+    0 ≤ (config opts).brotliLevel ∧ (config opts).brotliLevel ≤ 11 :=
+  lemma_fold_brotli opts defaultConfig (by decide)
+
+theorem lemma_fold_gzip (opts : List Opt) (c : Config) :
+    (opts.foldl applyOpt c).enableGzip = (c.enableGzip && !opts.contains .gzipDisabled) := by
+  induction opts generalizing c with
+  | nil => simp
+  | cons o os ih =>
+    rw [List.foldl_cons, ih]
+    cases o <;> simp [applyOpt, List.contains_cons] <;> cases c.enableGzip <;> simp
+
+theorem lemma_fold_br (opts : List Opt) (c : Config) :
+    (opts.foldl applyOpt c).enableBrotli = (c.enableBrotli && !opts.contains .brotliDisabled) := by
+  induction opts generalizing c with
+  | nil => simp
+  | cons o os ih =>
+    rw [List.foldl_cons, ih]
+    cases o <;> simp [applyOpt, List.contains_cons] <;> cases c.enableBrotli <;> simp
+
+/-- a coding is enabled iff its `With…Disabled` option does not occur — no option switches a coding back on,
+    and no other option touches the flags (position and repetition do not matter) -/
+theorem options_codings (opts : List Opt) :
+    (config opts).enableGzip = !opts.contains .gzipDisabled ∧
+    (config opts).enableBrotli = !opts.contains .brotliDisabled := by
+  constructor
+  · simpa [config, defaultConfig] using lemma_fold_gzip opts defaultConfig
+  · simpa [config, defaultConfig] using lemma_fold_br opts defaultConfig
+
+theorem lemma_fold_paths (opts : List Opt) (c : Config) (p : Bytes) :
+    p ∈ (opts.foldl applyOpt c).exclPaths ↔ p ∈ c.exclPaths ∨ ∃ l, Opt.exclPaths l ∈ opts ∧ p ∈ l := by
+  induction opts generalizing c with
+  | nil => simp
+  | cons o os ih =>
+    rw [List.foldl_cons, ih]
+    cases o <;> simp [applyOpt, or_assoc]
+
+/-- the excluded paths are exactly the union of all `WithExcludePaths` arguments -/
+theorem options_excluded_paths (opts : List Opt) (p : Bytes) :
+    p ∈ (config opts).exclPaths ↔ ∃ l, Opt.exclPaths l ∈ opts ∧ p ∈ l := by
+  simpa [config, defaultConfig] using lemma_fold_paths opts defaultConfig p
+
+theorem lemma_choose_no_br (ae : Bytes) (cfg : Cfg) (h : cfg.br = false) : chooseEncoding ae cfg ≠ brB := by
+  unfold chooseEncoding
+  generalize scanAE ae none none = r
+  obtain ⟨rb, rg⟩ := r
+  cases rb <;> cases rg <;> simp [h, brB, gzipB] <;> split <;> simp
+
+theorem lemma_choose_no_gzip (ae : Bytes) (cfg : Cfg) (h : cfg.gzip = false) : chooseEncoding ae cfg ≠ gzipB := by
+  unfold chooseEncoding
+  generalize scanAE ae none none = r
+  obtain ⟨rb, rg⟩ := r
+  cases rb <;> cases rg <;> simp [h, brB, gzipB] <;> split <;> simp
+
+/-- a disabled coding is never chosen, whatever the client sends and whatever else is configured -/
+theorem options_disabled_never_used (opts : List Opt) (ae : Bytes) :
+    (opts.contains .brotliDisabled = true → chooseEncoding ae (config opts).toCfg ≠ brB) ∧
+    (opts.contains .gzipDisabled = true → chooseEncoding ae (config opts).toCfg ≠ gzipB) := by
+  have hc := options_codings opts
+  constructor
+  · intro h
+    exact lemma_choose_no_br ae _ (by simp only [Config.toCfg, hc.2, h]; rfl)
+  · intro h
+    exact lemma_choose_no_gzip ae _ (by simp only [Config.toCfg, hc.1, h]; rfl)
+
+/-- **transparency for every list of options**, in the order `New` applies them: `transparent` instantiated
+    with the configuration the fold produces -/
+theorem transparent_for_options (sn : Sniff) (opts : List Opt) (path ae : Bytes) (h0 : Hdrs) (ops : List Op)
+    (hv : ∀ o ∈ ops, OpValid o) (hnp : ops.any isPanicOp = false) :
+    Transparent (active (config opts).toCfg path ae h0) (runWith sn (config opts).toCfg path ae h0 ops)
+      (runPlain sn h0 ops) :=
+  transparent sn (config opts).toCfg path ae h0 ops hv hnp
+
+/-- non-vacuity: repeated, overridden and clamped options; the last threshold wins, a negative one is no threshold -/
+example :
+    config [.minSize 100, .brotliLevel 15, .exclPaths ["/a".toList], .gzipDisabled, .minSize (-5), .exclPaths ["/b".toList], .logger]
+      = { gzipLevel := -1, brotliLevel := 11, minSize := -5, enableGzip := false, enableBrotli := true,
+          exclPaths := ["/a".toList, "/b".toList], exclExts := [], exclCT := [] } ∧
+    (config [.minSize 100, .minSize (-5)]).toCfg.minSize = 0 ∧
+    (config [.gzipDisabled, .brotliLevel 3]).toCfg.gzip = false := by decide
+
+
 end Rivaas.C15
